@@ -12,7 +12,7 @@ EXTENDS Integers, Sequences, FiniteSets, TLC, Json
 
 TraceLog == ndJsonDeserialize("trace.ndjson")
 
-VARIABLES l,
+VARIABLES l, idle,   \* idle: since when the swarm owes an attempt (-1: it does not)
   ainfo,     \* address name -> [relay, fd]
   caps,      \* [perpeer, fdlimit]
   waiting,   \* callers inside DialPeer
@@ -131,7 +131,24 @@ TrResidue ==
 TrHook == IsEvent("hook") /\ UNCHANGED <<ainfo, caps, waiting, call, returned, cancelAt, dialedGen, run, failed, conns, closedAt>>
 TraceNext == \/ TrHook \/ TrReset \/ TrAddr \/ TrConfig \/ TrDialCall \/ TrCancel \/ TrTStart \/ TrTEnd \/ TrConnClose
              \/ TrRetConn \/ TrRetCtx \/ TrRetErr \/ TrResidue
-TraceSpec == TraceInit /\ [][TraceNext]_vars
+\* No idle waiting: while a caller is inside DialPeer, nothing is in flight, and an address that caller may
+\* use has neither been attempted since callers started waiting nor failed, the swarm owes an attempt; the
+\* ranker postpones attempts by a few hundred milliseconds (at most about 2.5 s for a relay address behind
+\* direct ones), never for long: "every address that is neither filtered out nor in back-off is attempted
+\* unless a connection is obtained or every caller has given up first" - giving up because the swarm sat
+\* on an address for the whole dial timeout does not count.
+MaxIdle == 5000
+StalledIn(w, r, f, d, cl) ==
+  /\ w # {}
+  /\ \A a \in DOMAIN r : r[a] = 0
+  /\ \E c \in w : \E a \in DOMAIN ainfo :
+        ~(cl[c].force /\ ainfo[a].relay) /\ ~ainfo[a].low /\ a \notin f /\ a \notin d
+IdleStep ==
+  LET hasT == "t" \in DOMAIN Cur IN
+  /\ ((hasT /\ idle # -1) => Cur.t - idle <= MaxIdle)
+  /\ idle' = IF StalledIn(waiting', run', failed', dialedGen', call')
+             THEN (IF idle = -1 /\ hasT THEN Cur.t ELSE idle) ELSE -1
+TraceSpec == TraceInit /\ idle = -1 /\ [][TraceNext /\ IdleStep]_<<vars, idle>>
 
 HighWater == TLCSet(1, IF l > TLCGet(1) THEN l ELSE TLCGet(1))
 TraceAccepted == /\ PrintT(<<"VFHW", ToJson([hw |-> TLCGet(1), len |-> Len(TraceLog)])>>)
